@@ -67,6 +67,12 @@ WITNESSES = {
     # (at e i) where e is a call: at : (array<int>, int) -> int, so the element is an int whatever expression yields the array
     'lang:at-of-call-untyped': prog([fn(1, [(2, 'int')], 'arr', seq(P(V(2)), ('ret', ('arr', [V(2), ('bin', 'add', V(2), N(1))])))),
                                      fn(0, [], 'int', seq(P(('at', ('call', 1, [N(10)]), N(1))), ('ret', N(0))))]),
+    # the bounds of (range lo hi) are evaluated once, before the first iteration (spec 5.4); the body assigns the variable the
+    # upper bound reads, and the bound's evaluation prints
+    'lang:for-bound-reevaluated': prog([fn(1, [(2, 'int')], 'int', seq(P(('bin', 'add', N(100), V(2))), ('ret', V(2)))),
+                                        fn(0, [], 'int', seq(('let', True, 3, 'int', N(2)),
+                                                             ('for', 4, N(0), ('call', 1, [V(3)]), seq(P(V(4)), ('set', 3, N(4)))),
+                                                             ('ret', N(0))))]),
     # run-time overflow (through variables): wraps
     'lang:runtime-overflow': prog([fn(0, [], 'int', seq(('let', False, 1, 'int', N(9223372036854775807)), P(('bin', 'add', V(1), N(1))),
                                                         P(('bin', 'mul', V(1), V(1))), P(('un', 'neg', ('bin', 'sub', ('un', 'neg', V(1)), N(1)))), ('ret', N(0))))]),
